@@ -29,12 +29,14 @@ type C13Step struct {
 	Ranged bool `json:"ranged"`
 	Val    int  `json:"val"`  // marker value making the version's diagnostics unique
 	Kind   int  `json:"kind"` // shape of the text of this version
+	Rev    int  `json:"rev,omitempty"` // >0: a trailing comment making the text unique while Kind/Val (hence the diagnostics) repeat an earlier version
 }
 
 type C13Case struct {
 	Steps []C13Step `json:"steps"` // step 0 of each doc is its didOpen
 	Perm  []int     `json:"perm"`  // order in which computations may start / publish
 	Mode  string    `json:"mode"`  // start | publish
+	Pre   bool      `json:"pre,omitempty"` // the documents are open, clean and settled before the burst (every step is a change)
 }
 
 var c13URIs = []string{"file:///c13/a.journal", "file:///c13/b.journal"}
@@ -161,6 +163,9 @@ func c13Check(c *C13Case) (ds []ev.Discrepancy, nontrivial bool) {
 	final := map[int]int{}
 	for i, st := range c.Steps {
 		texts[i] = c13Text(st.Kind, st.Val)
+		if st.Rev > 0 {
+			texts[i] += fmt.Sprintf("; rev %d\n", st.Rev)
+		}
 		final[st.Doc] = i
 	}
 	for i, st := range c.Steps {
@@ -175,16 +180,31 @@ func c13Check(c *C13Case) (ds []ev.Discrepancy, nontrivial bool) {
 		wantKey[i] = diagKey(d)
 	}
 	sgate.mu.Lock()
-	sgate.active = c.Mode == "start"
+	sgate.active = false
 	sgate.waiting = nil
+	sgate.done = 0
+	sgate.mu.Unlock()
+	opened := map[int]bool{}
+	cur := map[int]string{}
+	if c.Pre {
+		for _, st := range c.Steps {
+			if !opened[st.Doc] {
+				opened[st.Doc] = true
+				cur[st.Doc] = c13Text(2, 0)
+				if _, err := h.OpenAndWait(c13URIs[st.Doc], cur[st.Doc]); err != nil {
+					return []ev.Discrepancy{ev.D("c13.harness", "%v", err)}, false
+				}
+			}
+		}
+	}
+	sgate.mu.Lock()
+	sgate.active = c.Mode == "start"
 	sgate.done = 0
 	sgate.mu.Unlock()
 	if c.Mode == "publish" {
 		h.C.SetPark(true)
 	}
 	// the burst, issued without waiting
-	opened := map[int]bool{}
-	cur := map[int]string{}
 	for i, st := range c.Steps {
 		uri := c13URIs[st.Doc]
 		if !opened[st.Doc] {
@@ -324,7 +344,11 @@ var recC13 = ev.New("C13")
 
 func c13Run(c *C13Case) []ev.Discrepancy {
 	ds, nt := c13Check(c)
-	recC13.Case(nt, mustJSON(c), "mode:"+c.Mode, fmt.Sprintf("burst:%d", len(c.Steps)))
+	rep := false
+	for _, st := range c.Steps {
+		rep = rep || st.Rev > 0
+	}
+	recC13.Case(nt, mustJSON(c), "mode:"+c.Mode, fmt.Sprintf("burst:%d", len(c.Steps)), fmt.Sprintf("settled-before:%v", c.Pre), fmt.Sprintf("repeated-diagnostics:%v", rep))
 	if nt && recC13.WantSample() {
 		recC13.Sample(c)
 	}
@@ -339,7 +363,17 @@ func genC13Steps(t *rapid.T, n int) []C13Step {
 		if two && i > 0 {
 			d = rapid.IntRange(0, 1).Draw(t, "doc")
 		}
-		steps = append(steps, C13Step{Doc: d, Ranged: rapid.Bool().Draw(t, "ranged"), Val: i + 1 + rapid.IntRange(0, 3).Draw(t, "val")*10, Kind: rapid.IntRange(0, 3).Draw(t, "kind")})
+		st := C13Step{Doc: d, Ranged: rapid.Bool().Draw(t, "ranged"), Val: i + 1 + rapid.IntRange(0, 3).Draw(t, "val")*10, Kind: rapid.IntRange(0, 3).Draw(t, "kind")}
+		if rapid.IntRange(0, 2).Draw(t, "repeat") == 0 {
+			// another text with the diagnostics of the previous version of the same document
+			for j := i - 1; j >= 0; j-- {
+				if steps[j].Doc == d {
+					st.Kind, st.Val, st.Rev = steps[j].Kind, steps[j].Val, i
+					break
+				}
+			}
+		}
+		steps = append(steps, st)
 	}
 	return steps
 }
@@ -359,9 +393,10 @@ func TestC13Enum(t *testing.T) {
 		total++
 		n := rapid.IntRange(2, 4).Draw(t, "n")
 		steps := genC13Steps(t, n)
+		pre := rapid.Bool().Draw(t, "pre")
 		for _, perm := range permutations(n) {
 			for _, mode := range []string{"start", "publish"} {
-				c := &C13Case{Steps: steps, Perm: perm, Mode: mode}
+				c := &C13Case{Steps: steps, Perm: perm, Mode: mode, Pre: pre}
 				report(t, recC13, "c13", c, c13Run(c))
 			}
 		}
@@ -375,7 +410,7 @@ func TestC13Rand(t *testing.T) {
 		n := rapid.IntRange(2, 5).Draw(t, "n")
 		steps := genC13Steps(t, n)
 		perm := rapid.Permutation(seq(n)).Draw(t, "perm")
-		c := &C13Case{Steps: steps, Perm: perm, Mode: rapid.SampledFrom([]string{"start", "publish"}).Draw(t, "mode")}
+		c := &C13Case{Steps: steps, Perm: perm, Mode: rapid.SampledFrom([]string{"start", "publish"}).Draw(t, "mode"), Pre: rapid.Bool().Draw(t, "pre")}
 		report(t, recC13, "c13", c, c13Run(c))
 	})
 }
